@@ -1,7 +1,7 @@
 (* C16 — property theorems only.  `lex` is the model of the REPAIRED sway-parse/src/token.rs
    (`lex_commented(handler, text, 0, text.len())`); `ucls` is the Unicode class table (whitespace /
    XID_Start / XID_Continue of non-ASCII scalars): the theorems hold for every table. *)
-From SwayV Require Import Base.Util C16.Model C16.Spec C16.Judge C16.ProofsBase C16.ProofsLex C16.ProofsMain C16.Orig.
+From SwayV Require Import Base.Util C16.Model C16.Spec C16.Join C16.Judge C16.ProofsBase C16.ProofsLex C16.ProofsMain C16.Orig.
 Open Scope N_scope.
 
 (* For every input text the lexer never panics: no span()/slice/subtraction goes wrong. *)
@@ -47,9 +47,27 @@ Proof. exact judge_lex_accepts. Qed.
 Print Assumptions C16_judge_lex_accepts.
 
 Theorem C16_judge_parse_accepts : forall cf nb s tab wm il ip,
-  snd (judge cf nb s tab wm il ip) = 0 -> exists ok spans, ip = IParse ok spans 0 /\ Forall (span_ok s) spans.
+  snd (judge cf nb s tab wm il ip) = 0 ->
+  exists ok spans, ip = IParse ok spans 0 /\ Forall (span_ok s) spans /\
+    Forall (derived (gens_cheap il ++ gens_eos (ucls_of tab) (indices 0 s) il)) spans.
 Proof. exact judge_parse_accepts. Qed.
 Print Assumptions C16_judge_parse_accepts.
+
+(* The parser is not modelled, but the way it builds diagnostic spans is: Span::join (min start,
+   max end), start_span, end_span over spans it received.  In-bounds spans are closed under these
+   operations, so a parser whose diagnostics are derived from the lexer's spans (proved in bounds
+   above) can only report in-bounds spans; the judge checks `derived` on every real diagnostic. *)
+Theorem C16_join_closed : forall s a b, span_ok s a -> span_ok s b -> span_ok s (join a b).
+Proof. exact span_ok_join. Qed.
+Print Assumptions C16_join_closed.
+
+Theorem C16_derived_in_bounds : forall s g sp, Forall (span_ok s) g -> derived g sp -> span_ok s sp.
+Proof. exact derived_ok. Qed.
+Print Assumptions C16_derived_in_bounds.
+
+Theorem C16_derived_decision_sound : forall g sp, derivedb g sp = true -> derived g sp.
+Proof. exact derivedb_sound. Qed.
+Print Assumptions C16_derived_decision_sound.
 
 (* Non-vacuity: `fn f(){ "é" /*c*/ 0x1Fu8 }` lexes to a non-trivial stream ... *)
 Example C16_example_stream :
